@@ -236,3 +236,16 @@ CLAIMED['C08'] = {
             'references they report. Outside: message texts, pre-sds/post-setup validation steps, cd, --act.',
     'technique': TAB,
 }
+CLAIMED['C18'] = {
+    'text': 'proof (partial: the exception-routing layers, integer expressions and replacement templates are proved never to yield INTERNAL_ERROR / an uncaught Exception '
+            'for all inputs; that no OTHER parser, validator or instruction raises on some text is fuzzed with grammar-based mutants, not proved): routing is total for every '
+            'layer and Exception class, parse-time exceptions are SYNTAX_ERROR, HardErrorException is HARD_ERROR, INTERNAL_ERROR only from non-HardError exceptions, '
+            'non-Exception BaseExceptions escape (refuted totality witness = KF-C18-3); python_evaluate classifies every integer expression as value / not-an-integer (pre-fix '
+            'catch set refuted); replacement templates never internal (pre-fix refuted); obligations regenerated from the source (except chains read by an ast visitor, issubclass '
+            'table, 2.4k-row route table raised through the real program). 20 theorems closed under the global context. Open known findings KF-C18-2/3/4/5/8(/10) are listed.',
+    'note': 'Hand-written model of the try/except chains of 20 anchored functions, of python_evaluate over Python integer arithmetic and of CPython\'s replacement-template parser; '
+            'modelled, not verified; tied to the source on every run by (i) the class names of every except clause read from the source, (ii) every exception class raised through '
+            'the real program at every site via a text-driven stub instruction/actor, (iii) differential runs of integer expressions, templates and ~2000 (quick) / ~33000 '
+            '(thorough) mutated test cases in process. Trusted: Coq kernel + vm_compute, the harness (ast visitor, stubs, generators, canonicaliser), Python 3.12.',
+    'technique': 'Coq theorem over hand model + tables regenerated from source and running code + in-process grammar-based mutation fuzzing evaluated by vm_compute',
+}
